@@ -64,8 +64,14 @@ def parse_stream(stream):
         if t not in (CMD, DATA) or i + 6 > n:
             return None
         ln, crc = struct.unpack_from("<HH", stream, i + 2)
+        if ln == 0:                    # a frame of length zero is the protocol's "data phase aborted" marker
+            items.append(("abort",))
+            i += 6
+            continue
         payload = bytes(stream[i + 6:i + 6 + ln])
-        if ln == 0 or len(payload) != ln or crc16_xmodem(bytes(stream[i:i + 4]) + payload) != crc:
+        # the CRC must cover the payload that was delivered together with ITS length (a frame cut short by the end of
+        # the stream is only acceptable when the CRC was computed for exactly the bytes that arrived)
+        if ln == 0 or not payload or crc16_xmodem(bytes(stream[i:i + 2]) + struct.pack("<H", len(payload)) + payload) != crc:
             return None
         items.append(("frame", t, payload))
         i += 6 + ln
